@@ -211,20 +211,20 @@ def _numbers(case, pt):
                     bad('number-changed', 'JSON user data %r: %s' % (texts[i], '; '.join(m)))
         if None in docs:
             return out
-        r = clidrv.run_main(['-p', os.path.join(d, 'in'), '-a'])
+        r = clidrv.run_main(['-p', os.path.join(d, 'in'), '-a'], isolate=True)
         try:
             if strictjson.loads(r.stdout) != docs:
                 bad('number-all', '-a documents differ from the decoded ones for %r' % (texts,))
         except Exception as e:
             bad('number-all-not-json', '-a output for JSON user data %r does not parse: %s' % (texts, e))
         for i in range(len(texts)):
-            r = clidrv.run_main(['-f', os.path.join(d, 'in', 'n%02d' % i)])
+            r = clidrv.run_main(['-f', os.path.join(d, 'in', 'n%02d' % i)], isolate=True)
             try:
                 if strictjson.loads(r.stdout) != docs[i]:
                     bad('number-file', '-f document differs from the decoded one for %r' % texts[i])
             except Exception as e:
                 bad('number-file-not-json', '-f output for JSON user data %r does not parse: %s' % (texts[i], e))
-        clidrv.run_main(['-p', os.path.join(d, 'in'), '-j', '-o', os.path.join(d, 'out')])
+        clidrv.run_main(['-p', os.path.join(d, 'in'), '-j', '-o', os.path.join(d, 'out')], isolate=True)
         files = sorted(os.listdir(os.path.join(d, 'out')))
         if len(files) != len(texts):
             bad('number-json-files', '%d files written for %d PELs' % (len(files), len(texts)))
@@ -287,7 +287,7 @@ def _cli(case, pt):
                 f.write(pelgen.encode_pel(pelgen.pel_from_spec(spec)))
             want['0x%08X' % eid] = code.strip()
         bad = lambda what, detail: out.append({'key': classify(''.join(codes), what), 'what': '%s: %s' % (what, detail), 'case': case})
-        r = clidrv.run_main(['-p', os.path.join(d, 'in'), '-l', '-E'])
+        r = clidrv.run_main(['-p', os.path.join(d, 'in'), '-l', '-E'], isolate=True)
         try:
             lst = strictjson.loads(r.stdout)
             got = {k: v.get('SRC') for k, v in lst.items()}
@@ -295,7 +295,7 @@ def _cli(case, pt):
                 bad('list', 'reference codes %r listed as %r' % (want, got))
         except Exception as e:
             bad('list-not-json', '-l output does not parse: %s' % e)
-        r = clidrv.run_main(['-p', os.path.join(d, 'in'), '-a', '-E'])
+        r = clidrv.run_main(['-p', os.path.join(d, 'in'), '-a', '-E'], isolate=True)
         try:
             docs = strictjson.loads(r.stdout)
             got = {x['Private Header']['Entry Id']: x['Primary SRC']['Reference Code'] for x in docs}
@@ -306,7 +306,7 @@ def _cli(case, pt):
                     bad('all-text', 'text lines displayed as %r' % (x['User Data']['Data'],))
         except Exception as e:
             bad('all-not-json', '-a output does not parse: %s' % e)
-        r = clidrv.run_main(['-p', os.path.join(d, 'in'), '-j', '-o', os.path.join(d, 'out'), '-E'])
+        r = clidrv.run_main(['-p', os.path.join(d, 'in'), '-j', '-o', os.path.join(d, 'out'), '-E'], isolate=True)
         files = sorted(os.listdir(os.path.join(d, 'out')))
         if len(files) != len(codes):
             bad('json-files', '%d files written for %d PELs' % (len(files), len(codes)))
@@ -339,7 +339,7 @@ def _cli(case, pt):
             for extra in ([], ['-r']):
                 want_ids = list(reversed(vis)) if extra else vis
                 for mode in ('-a', '-l'):
-                    r = clidrv.run_main(['-p', hid, mode] + extra)
+                    r = clidrv.run_main(['-p', hid, mode] + extra, isolate=True)
                     try:
                         v = strictjson.loads(r.stdout)
                         got = [x['Private Header']['Entry Id'] for x in v] if mode == '-a' else list(v)
@@ -360,8 +360,8 @@ def _cli(case, pt):
             for f in os.listdir(re_out):
                 os.unlink(os.path.join(re_out, f))
             for opt in order:
-                clidrv.run_main(['-p', re_in, '-j', '-o', re_out, '-E'] + ([opt] if opt else []))
-                rf = clidrv.run_main(['-f', os.path.join(re_in, 'again'), '-E'] + ([opt] if opt else []))
+                clidrv.run_main(['-p', re_in, '-j', '-o', re_out, '-E'] + ([opt] if opt else []), isolate=True)
+                rf = clidrv.run_main(['-f', os.path.join(re_in, 'again'), '-E'] + ([opt] if opt else []), isolate=True)
                 for fn in os.listdir(re_out):
                     with open(os.path.join(re_out, fn)) as f:
                         text = f.read()
@@ -370,7 +370,7 @@ def _cli(case, pt):
                             out.append({'key': 'C06:json-rewrite', 'what': '%s differs from the -f document after re-running --json (%s)' % (fn, order), 'case': case})
                     except Exception as e:
                         out.append({'key': 'C06:json-rewrite-not-json', 'what': '%s written by a repeated --json run (%s) does not parse: %s' % (fn, order, e), 'case': case})
-        r = clidrv.run_main(['-f', os.path.join(d, 'in', 'f000'), '-E'])
+        r = clidrv.run_main(['-f', os.path.join(d, 'in', 'f000'), '-E'], isolate=True)
         try:
             x = strictjson.loads(r.stdout)
             if x['Primary SRC']['Reference Code'] != codes[0].strip():
